@@ -79,12 +79,12 @@ bool CSRMatrix::eq(const MatrixBase &other) const
 
 bool CSRMatrix::is_canonical() const
 {
-    if (p_.size() != row_ + 1 or j_.size() != p_[row_] or x_.size() != p_[row_])
+    if (p_.size() != row_ + 1 or p_[0] != 0 or j_.size() != p_[row_]
+        or x_.size() != p_[row_])
         return false;
 
-    if (p_[row_] != 0) // Zero matrix is in canonical format
-        return csr_has_canonical_format(p_, j_, row_);
-    return true;
+    // also checks the row pointers of a matrix without stored entries
+    return csr_has_canonical_format(p_, j_, row_);
 }
 
 // Get and set elements
